@@ -43,6 +43,7 @@ type Contract struct {
 	Nullable     map[string]bool
 	InstGoalOnly bool
 	Cuts         []*CutSpec
+	LoopCalls    map[int][]CutSpec // loop N: calls Name#K
 	LineAsserts  []*LineAssert
 	used         bool
 	extOnly      bool // created by `func+` only so far
@@ -128,6 +129,8 @@ type Lemma struct {
 	Pkg  *ssa.Package
 	Mode string
 }
+
+var loopCallsRe = regexp.MustCompile(`^\s*(\d+)\s*:\s*calls\s+([A-Za-z_][A-Za-z0-9_]*)#(\d+)\s*$`)
 
 var clauseKW = map[string]bool{"func": true, "func+": true, "pure": true, "requires": true, "ensures": true, "assigns": true,
 	"panics-if": true, "loop": true, "callsite": true, "assumed": true, "mode": true, "lemma": true, "noauto": true, "wraps": true, "nullable": true, "instantiate": true, "inst": true, "cut": true, "assert": true, "assert-cut": true, "uf": true, "axiom": true}
@@ -339,6 +342,16 @@ func (e *Engine) loadContractFile(path string, pkg *ssa.Package) error {
 						cur.Unroll = map[int]int{}
 					}
 					cur.Unroll[k] = n
+					break
+				}
+				if cm := loopCallsRe.FindStringSubmatch(rc.text); cm != nil {
+					// loop N: calls Name#K -- every iteration (every path back to the loop head) executes that call
+					k, _ := strconv.Atoi(cm[1])
+					ord, _ := strconv.Atoi(cm[3])
+					if cur.LoopCalls == nil {
+						cur.LoopCalls = map[int][]CutSpec{}
+					}
+					cur.LoopCalls[k] = append(cur.LoopCalls[k], CutSpec{cm[2], ord})
 					break
 				}
 				m := loopRe.FindStringSubmatch(rc.text)
